@@ -205,6 +205,17 @@ func init() {
 						b.(J)["applyProbability"] = nil // present but null: the default (1) applies
 					}
 				}
+				if r.chance(0.06) { // long lists: more entries than there are biases (repeats and disabled entries are legal)
+					for len(bl) < 7+r.Intn(6) {
+						if r.chance(0.5) {
+							bl = append(bl, J{"name": "fatigue", "applyProbability": probGrid[r.Intn(len(probGrid))], "props": J{"function": "const", "params": J{"value": 0.125}, "randomSeed": r.Intn(100)}})
+						} else {
+							bl = append(bl, J{"name": []string{"criteriaMixing", "noSuchBias", "fatigue"}[r.Intn(3)], "disabled": true, "props": J{}})
+						}
+					}
+					q.Body["biases"] = bl
+					o.count("real:long-bias-list")
+				}
 				if r.chance(0.3) {
 					bl = append(bl, J{"name": "noSuchBias", "disabled": true, "props": J{}})
 					r.Shuffle(len(bl), func(i, j int) { bl[i], bl[j] = bl[j], bl[i] })
